@@ -179,9 +179,7 @@ pub fn run(ctx: &Ctx) -> Report {
         let mut s = Vec::new();
         nth_bytes_upto(&all, 3, i, &mut s);
         A.with(|a| check_input(&mut a.borrow_mut(), &s, acc, i % 16 == 0));
-        if sample_key(seed, i) < (1u64 << 42) {
-            acc.sample(sample_key(seed, i), json!({"bytes": hx(&s)}));
-        }
+        acc.maybe_sample(sample_key(seed, i), || json!({"bytes": hx(&s)}));
     });
     rep.evaluations += n1;
     rep.absorb(acc);
